@@ -934,9 +934,64 @@ fn fs_family(prop: &str, out: &mut Vec<Fail>) -> usize {
     n
 }
 
+// ------------------------------------------------------------------------------------------------ mutated sources (C12): "token soup, grammar-directed mutations of valid files, boundary integers in every numeric position"
+fn mutation_family(seed: u64, quick: bool, out: &mut Vec<Fail>) -> usize {
+    fn tokens(s: &str) -> Vec<String> {
+        let mut v = vec![];
+        let mut cur = String::new();
+        for c in s.chars() {
+            if c.is_alphanumeric() || c == '_' { cur.push(c); continue; }
+            if !cur.is_empty() { v.push(std::mem::take(&mut cur)); }
+            if !c.is_whitespace() { v.push(c.to_string()); } else if c == '\n' { v.push("\n".into()); }
+        }
+        if !cur.is_empty() { v.push(cur); }
+        v
+    }
+    let pool: Vec<&str> = vec!["pub", "type", "enum", "impl", "fn", "vftable", "extern", "use", "backend", "prologue", "epilogue", "unknown", "self", "mut", "const", "&", "*", "<", ">", "[", "]", "{", "}", "(", ")", "#", "!", ",", ";", ":", "::", "->", "=", "-",
+        // integers: small boundaries, and values the parser itself rejects; nothing in between, because a huge *accepted*
+        // vftable size / index legitimately asks for a table of that size (C12 allows memory proportional to it)
+        "0", "1", "-1", "255", "256", "65535", "65536", "9223372036854775808", "18446744073709551615", "18446744073709551616", "0x", "0xFFFFFFFFFFFFFFFFF", "1_000", "1e9", "0b101", "0o7",
+        "u8", "u64", "u128", "void", "bool", "f32", "T", "Self", "r#type", "\"str\"", "r#\"raw\"#", "'a", "///", "//!", "/*", "*/", "size", "align", "address", "index", "base", "packed", "singleton", "copyable", "defaultable", "default", "calling_convention", "\u{0}", "é", "𝓍"];
+    let mut rng = 0x9E3779B97F4A7C15u64 ^ seed.wrapping_mul(0xD1B54A32D192ED03);
+    let mut next = move || { rng ^= rng << 13; rng ^= rng >> 7; rng ^= rng << 17; rng };
+    let sources: Vec<String> = emit_corpus::corpus().into_iter().flat_map(|(_, m)| m.into_iter().map(|(_, s)| s)).collect();
+    let per = if quick { 4 } else { 120 };
+    let mut n = 0;
+    for src in &sources {
+        let toks = tokens(src);
+        if toks.is_empty() { continue; }
+        for _ in 0..per {
+            let mut t = toks.clone();
+            for _ in 0..(1 + next() % 3) {
+                let i = (next() as usize) % t.len();
+                match next() % 5 {
+                    0 => { t.remove(i); if t.is_empty() { t.push(";".into()); } }
+                    1 => { let x = t[i].clone(); t.insert(i, x); }
+                    2 => { if i + 1 < t.len() { t.swap(i, i + 1); } }
+                    3 => { t[i] = pool[(next() as usize) % pool.len()].to_string(); }
+                    _ => { t.insert(i, pool[(next() as usize) % pool.len()].to_string()); }
+                }
+            }
+            let m = t.join(" ");
+            let ptr = if next() % 2 == 0 { 4 } else { 8 };
+            let m2 = m.clone();
+            let (tx, rx) = std::sync::mpsc::channel();
+            std::thread::spawn(move || { let o = build_one(&m2, ptr); let _ = tx.send(o.tag()); });
+            n += 1;
+            match rx.recv_timeout(std::time::Duration::from_secs(10)) {
+                Ok(tag) => { if tag.starts_with("PANIC") { out.push(Fail { family: "mutation", input: m.clone(), ptr, expected: "Ok or Err".into(), actual: tag }); } }
+                Err(_) => out.push(Fail { family: "mutation", input: m.clone(), ptr, expected: "a result within 10 s".into(), actual: "no result (hang)".into() }),
+            }
+            if out.len() > 20 { return n; }
+        }
+    }
+    n
+}
+
 fn run_family(prop: &str, seed: u64, quick: bool, out: &mut Vec<Fail>) -> usize {
     let mut n = 0;
     if ["C14", "C12"].contains(&prop) { n += fs_family(prop, out); }
+    if prop == "C12" { n += mutation_family(seed, quick, out); }
     if EMIT_PROPS.contains(&prop) {
         // the backend check also runs on every k-th input the other families find accepted
         EMIT_SAMPLE.with(|c| { let mut c = c.borrow_mut(); c.0 = if quick { 97 } else { 13 }; c.1 = seed as usize % 7; });
